@@ -88,6 +88,9 @@ pub struct Shadow {
     /// objects revived by `resurrect` in the running cycle (cleared when the cycle ends): they and
     /// everything strongly reachable from them must not be destructed by this cycle's sweep (C07)
     pub resurrected: Vec<u32>,
+    /// undestructed objects for which `is_dead` answered `false` in the running cycle (cleared when
+    /// the cycle ends): marked objects stay marked, so this cycle's sweep must not destruct them (C07)
+    pub said_alive: Vec<u32>,
     /// The collector went to sleep with nothing owed (see `observe`): it must stay asleep until
     /// more than `wake` allocations were made.  `(wake, allocations since)`
     pub sleep_win: Option<(f64, usize)>,
@@ -316,6 +319,9 @@ impl Shadow {
                 let what = if *is_drop { "destructed" } else { "released" };
                 v("C01", format!("object {id} {what} during `{op}` while strongly reachable"));
             }
+            if *is_drop && sweeps_in_call <= 1 && matches!(op, Op::Collect { .. }) && self.said_alive.contains(id) {
+                v("C07", format!("object {id} was destructed by the sweep of the very cycle in which is_dead reported it not dead"));
+            }
             if *is_drop && protected.contains(id) {
                 v("C07", format!("object {id} was destructed by the sweep of the cycle in which it (or an object it is strongly reachable from) was resurrected"));
             }
@@ -482,6 +488,30 @@ impl Shadow {
                 if obs.traced_after != want {
                     v("C10", format!("trace credit counter: traced_gcs {} -> {} over `{op}` (steps={}, ret={}); {} objects were traced to completion since {}: expected {want}",
                         obs.traced_before, obs.traced_after, obs.steps, obs.ret, g - taken_back.min(g), if obs.steps.contains('Z') { "the cycle began" } else { "the call began" }));
+                }
+                // C11 / C08: the phase a collection call leaves behind is the one its micro-steps led to
+                // ('W' -> Mark, 'S' -> Sweep, 'Z' -> Sleep; nothing else changes it) — also, and in
+                // particular, when the call unwound out of a panicking trace: a fault can only happen
+                // while marking, and the faulted object (or the root) is still to be traced
+                {
+                    let raw = obs.steps.bytes().rev().find(|c| matches!(c, b'W' | b'S' | b'Z'));
+                    let faulted = obs.ret == "panic";
+                    let ok = match raw {
+                        Some(b'W') => matches!(obs.phase_after, CPhase::Marking | CPhase::Marked),
+                        Some(b'S') => obs.phase_after == CPhase::Sweeping,
+                        Some(_) => obs.phase_after == CPhase::Sleeping,
+                        None => match obs.phase_before {
+                            CPhase::Marking | CPhase::Marked => matches!(obs.phase_after, CPhase::Marking | CPhase::Marked),
+                            x => obs.phase_after == x,
+                        },
+                    } && (!faulted || obs.phase_after == CPhase::Marking);
+                    if !ok {
+                        let what = format!("{} from {} with steps={} (ret={}) left the arena {}: not the phase its steps led to", method.name(), obs.phase_before.name(), obs.steps, obs.ret, obs.phase_after.name());
+                        v(if faulted { "C11" } else { "C08" }, what);
+                    }
+                    if faulted {
+                        self.notes.push(if obs.steps.contains('W') { "phase-after-unwind|the faulted call woke the collector itself" } else { "phase-after-unwind|the faulted call continued a running mark" });
+                    }
                 }
                 // C09 / C08: once a call has passed through Sleep it performs at most one whole cycle —
                 // the cycle it ran as a single atomic unit ends the call ("resets inherited debt after
@@ -710,6 +740,17 @@ impl Shadow {
                 if !self.fin_mutated && !self.mutated_since_wake && !dead && !self.fin_reach.contains(&id) && (id as usize) < self.objs.len() {
                     v("C07", format!("is_dead({p}) = false for an unreachable object with no mutation since marking began"));
                 }
+                if !self.fin_mutated && !self.mutated_since_wake && (id as usize) < self.objs.len() {
+                    self.notes.push(match (p, self.fin_reach.contains(&id), self.objs[id as usize].dropped > 0) {
+                        (_, true, _) => "is-dead-exact|reachable object",
+                        (_, false, true) => "is-dead-exact|destructed shell",
+                        (SP::S(_), false, false) => "is-dead-exact|unreachable, undestructed, strong pointer",
+                        (SP::W(_), false, false) => "is-dead-exact|unreachable, undestructed, weak pointer",
+                    });
+                }
+                if obs.ret == "false" && self.objs.get(id as usize).is_some_and(|o| o.dropped == 0) && !self.said_alive.contains(&id) {
+                    self.said_alive.push(id);
+                }
             }
             Op::Resurrect(p) => {
                 let was_mutated = self.mutated_since_wake;
@@ -800,6 +841,7 @@ impl Shadow {
         }
         if obs.steps.contains('Z') || obs.phase_after == CPhase::Sleeping || matches!(op, Op::DropArena) {
             self.resurrected.clear();
+            self.said_alive.clear();
         }
 
         // ---- C09: sleep is honoured ----
